@@ -191,6 +191,15 @@ def main(tier):
         tc = trimmed(model_C(doc))
         tc["requests"].append({"method": "verif/literals", "typeName": "VerifLiteralsRequest", "messageDirection": "clientToServer", "params": {"kind": "reference", "name": "VerifLiteralCarrier"}, "result": {"kind": "base", "name": "null"}})
         json.dump(tc, open(pTrimC, "w"))
+        split3 = []
+        for part in range(3):
+            d = {"metaData": doc["metaData"]}
+            for sec in ("requests", "notifications", "structures", "enumerations", "typeAliases"):
+                items = doc[sec]
+                a, b = len(items) * 6 // 10, len(items) * 8 // 10
+                d[sec] = [items[:a], items[a:b], items[b:]][part]
+            split3.append(os.path.join(root, "split%d.json" % part))
+            json.dump(d, open(split3[-1], "w"))
         seeds = ["0", "1"] if tier == "quick" else ["0", "1", "4242", "random"]
         import threading
         from concurrent.futures import ThreadPoolExecutor
@@ -256,6 +265,11 @@ def main(tier):
             # hash seeds
             for s in seeds[1:]:
                 compare("seed", go("%s-seed%s" % (plugin, s), seed=s), "hashseed=%s" % s)
+            # the same model given as THREE --model files (in order: head, middle, tail of every section):
+            # the merged model is the committed one, so the output is the reference output whatever the hash seed
+            if plugin in ("python", "rust"):
+                for s in (["0", "1", "2", "3", "5", "8"] if plugin == "python" else ["1", "3"]):
+                    compare("multi", go("%s-multi%s" % (plugin, s), models=split3, seed=s), "three model files, hashseed=%s" % s)
             # optimised interpreter (`python -O`)
             r_opt = genrun.run_generator(plugin, root, models=mA, hashseed="0", tag="%s-opt" % plugin, optimize=True)
             with lock:
